@@ -951,14 +951,34 @@ func (r Registry[R, T]) LinkStream(
 				break
 			}
 
+			// Once the context is done the request/response loops stop reading, so
+			// don't block on handing messages to them forever
 			if msg.Request != nil {
 				verifYield("dec.handreq", "")
-				requests <- *msg.Request
+				select {
+				case requests <- *msg.Request:
+				case <-ctx.Done():
+					decodeErr = ctx.Err()
+
+					close(decodeDone)
+					verifTrace("dec.exit", "")
+
+					return
+				}
 			}
 
 			if msg.Response != nil {
 				verifYield("dec.handres", "")
-				responses <- *msg.Response
+				select {
+				case responses <- *msg.Response:
+				case <-ctx.Done():
+					decodeErr = ctx.Err()
+
+					close(decodeDone)
+					verifTrace("dec.exit", "")
+
+					return
+				}
 			}
 		}
 	}()
